@@ -42,8 +42,7 @@ def starttls (bc : Bool) (cfg : Cfg) (c : Conn) (tlsScript : List Step) : Out ×
     if bc && !c.buf.isEmpty then (⟨some c.abort, none, false⟩, .error .bad) else
     if !cfg.hs then (⟨some c, none, true⟩, .error .bad) else
     -- the reader's buffer is kept; the peer now reacts with the TLS script
-    let t : Conn := { script := tlsScript, sending := true, sent := [], buf := c.buf, panic := false,
-                      info := c.info, shut := false }
+    let t : Conn := Conn.fresh tlsScript c.buf c.info
     match t.ehlo cfg.hello with
     | (t, .error e) => (⟨some c, some t, true⟩, .error e)
     | (t, .ok ()) => (⟨some c, some t, true⟩, .ok ())
